@@ -56,9 +56,59 @@ class Tracer:
         U.find_targets_recursive = self.find_targets
         U.reprocess_nodes = self.reprocess
         U.lookup_target = self.lookup
+        # ---- the callers: FineGrainedBuildManager.update / update_module / calculate_active_triggers
+        self.updates: list[dict] = []
+        self.upd: dict | None = None
+        self.mod_ev: dict | None = None
+        tracer = self
+        FG = U.FineGrainedBuildManager
+        orig_update, orig_update_module, orig_active = FG.update, FG.update_module, U.calculate_active_triggers
+
+        def update(fg, changed_modules, removed_modules, followed=False):
+            rec = {"prev": sorted(fg.previous_targets_with_errors), "changed": [m for m, _ in changed_modules],
+                   "removed": [m for m, _ in removed_modules], "stale": [m for m, _ in fg.stale],
+                   "blocking_before": fg.blocking_error is not None, "events": [], "ok": True}
+            outer = tracer.upd
+            tracer.upd = rec
+            tracer.updates.append(rec)
+            try:
+                res = orig_update(fg, changed_modules, removed_modules, followed)
+                rec["blocking_after"] = fg.blocking_error is not None
+                rec["final_prev"] = sorted(fg.previous_targets_with_errors)
+                return res
+            except BaseException:
+                rec["ok"] = False
+                raise
+            finally:
+                tracer.upd = outer
+
+        def update_module(fg, module, path, force_removed, followed):
+            ev = {"type": "module", "module": module, "triggered": None}
+            if tracer.upd is not None:
+                tracer.upd["events"].append(ev)
+            tracer.mod_ev = ev
+            res = orig_update_module(fg, module, path, force_removed, followed)
+            remaining, (mod2, _p), blocker = res
+            ev.update({"processed_as": mod2, "remaining": [m for m, _ in remaining], "blocked": blocker is not None,
+                       "errs_after": sorted(fg.manager.errors.targets())})
+            return res
+
+        def active(manager, old_snapshots, new_modules):
+            res = orig_active(manager, old_snapshots, new_modules)
+            if tracer.mod_ev is not None:
+                tracer.mod_ev["triggered"] = sorted(res)
+            return res
+
+        FG.update = update
+        FG.update_module = update_module
+        U.calculate_active_triggers = active
 
     def take(self) -> list[dict]:
         out, self.calls = self.calls, []
+        return out
+
+    def take_updates(self) -> list[dict]:
+        out, self.updates = self.updates, []
         return out
 
     def propagate(self, manager, graph, deps, triggered, up_to_date_modules, targets_with_errors, processed_targets):
@@ -66,6 +116,8 @@ class Tracer:
                "targets_with_errors": sorted(targets_with_errors), "iters": [], "outcome": "done"}
         self.cur = rec
         self.calls.append(rec)
+        if self.upd is not None:
+            self.upd["events"].append({"type": "propagate", "call": rec})
         n0 = len(processed_targets)
         self._pt = processed_targets
         try:
@@ -269,6 +321,7 @@ def main() -> int:
                                  "where": [f"{os.path.basename(f.filename)}:{f.name}" for f in frames[-4:]]}
             if tracer is not None:
                 res["trace"] = tracer.take()
+                res["updates"] = tracer.take_updates()
         else:
             res["daemon"] = {"dead": True}
         # ---- full, non-incremental, in another process (the daemon's interpreter state is never shared)
